@@ -116,7 +116,7 @@ Proof.
   assert (H6 : mem (c_suite c1) (sp_suites (c_spec c1)) = true) by reflexivity.
   destruct (H [] c1 c2 V13 H1 H2 H3 H4 H5 H6 (fun _ => I)) as [s [L R]].
   vm_compute in L. inversion L; subst s. clear L.
-  assert (U : unexpired (mkSession V13 4865 false 1000 605800 true 5000000 [1; 2; 3; 4; 5; 6] 1 (mkTicket 7 V13 4865 false 1000 120)) (c_now c2)).
+  assert (U : unexpired (mkSession V13 4865 false 1000 605800 true 5000000 [1; 2; 3; 4; 5; 6] 1 (mkTicket 7 V13 4865 false 1000 120) false) (c_now c2)).
   { split; [|split]; apply N.leb_le; reflexivity. }
   destruct (R U) as [Rs _]. vm_compute in Rs. discriminate.
 Qed.
